@@ -183,6 +183,12 @@ func (p *Prog) CallSitesOf(target *ssa.Function) []ssa.CallInstruction {
 					return
 				}
 			}
+			for _, callee := range p.VTACallees(ci) {
+				if callee == target {
+					out = append(out, ci)
+					return
+				}
+			}
 		})
 	}
 	return out
